@@ -170,13 +170,18 @@ bool ManifestParser::ParseRule(string* err) {
     }
   }
 
-  if (rule->bindings_["rspfile"].empty() !=
-      rule->bindings_["rspfile_content"].empty()) {
+  // Look the bindings up without creating them: an empty binding left behind
+  // in the rule would hide a file-level variable of the same name.
+  const EvalString* rspfile = rule->GetBinding("rspfile");
+  const EvalString* rspfile_content = rule->GetBinding("rspfile_content");
+  if ((!rspfile || rspfile->empty()) !=
+      (!rspfile_content || rspfile_content->empty())) {
     return lexer_.Error("rspfile and rspfile_content need to be "
                         "both specified", err);
   }
 
-  if (rule->bindings_["command"].empty())
+  const EvalString* command = rule->GetBinding("command");
+  if (!command || command->empty())
     return lexer_.Error("expected 'command =' line", err);
 
   env_->AddRule(std::move(rule));
